@@ -180,6 +180,10 @@ package store
 // checkUserPathRoot (the recursive function literal in userCheck)
 //@ func (*DbSqlite).userCheck$1
 //@   props C09
+//@   local id string#1
+//@   local edges []data.Edge#1
+//@   local e data.Edge#1
+//@   local deleted bool#1
 //@   summary
 //@   self checkUserPathRoot
 //@   requires sdb != nil && acyclic(sdb)
@@ -204,6 +208,13 @@ package store
 //@ spec func credsMatch(u data.NodeEdge, email string, password string) bool = findText(u.Points, "email", "") == email && findText(u.Points, "pass", "") == password
 //@ func (*DbSqlite).userCheck
 //@   props C09
+//@   local sdb *store.DbSqlite#1
+//@   local email string#1
+//@   local password string#2
+//@   local users []data.NodeEdge#1
+//@   local ids []string#1
+//@   local ne []data.NodeEdge#2
+//@   local ret []data.NodeEdge#3
 //@   requires sdb != nil && sdb.db != nil && acyclic(sdb)
 //@   modifies state(sdb.db)
 //@   assert [C09] matched-placements: forall k int :: 0 <= k && k < len(ne) ==> credsMatch(ne[k], email, password) at "append(users, ne...)"
